@@ -142,4 +142,17 @@ PROPS = {
         "thorough": {"cases": 12000, "shards": 16, "shrinktime": "120s", "timeout_s": 3000},
         "assumptions": RUN_ASSUME + ["goroutines are attributed by stack frames; a goroutine that needs more than 2 s to finish after return is reported as leaked"],
     },
+    "C06": {
+        "test": "TestC06", "binary": "plain", "level": "fault_enumeration",
+        "rule": "rapid-generated programs (never-ending steps, foreach with items in flight, steps with and without cancel-signal handler, generated "
+                "closure_wait_timeout 20-300 ms and reaction to the signal: answer at once / after d ms / ignore) with the caller's context cancelled "
+                "by a trigger at a generated instant of a generated step's life (before anything, after N ms, on deploy-begin, while the deployment is "
+                "held, on exec-start, on exec-end, exec-start + N ms). oracle: return within 5 s x (1 + nesting) + sum of closure timeouts + 2 s after "
+                "the cancellation; every execution that started has ended, never-ending ones only after a logged cancel signal / closed connection; "
+                "deploy/close balance and no leaked goroutine; a returned output's plugin-produced values equal what the producing steps logged as "
+                "emitted. non-trivial = >=1 deployment in flight when the cancellation fired",
+        "quick": {"cases": 600, "shards": 12, "shrinktime": "40s"},
+        "thorough": {"cases": 9000, "shards": 16, "shrinktime": "180s", "timeout_s": 3000},
+        "assumptions": RUN_ASSUME + ["engine-generated stage outputs in a returned output are not judged: whether they exist depends on the instant a step was closed"],
+    },
 }
